@@ -9,7 +9,7 @@ from .c08 import r1_spill_table, r6_plumb
 
 PID = "C07"
 META = {
-    "explanation": "Static analysis of the sorter's control skeleton on the MIR of the current tree (default, all-features incl. rayon, no-default-features): every insert path stores the caller's entry exactly once; write_chunk sorts once, streams Entries::iter() through the grouping loop (group closed on whole-key inequality: merge once, insert, clear, replace key; value pushed on both arms; trailing group flushed), then pushes the flushed chunk and clears the buffer; every consumer goes through one final write_chunk; the chunk vector is only appended to / drained whole so vector order is age order, which the merger's source-index tie-break (C06 rules re-run here) turns into oldest-value-first; chunks are flushed before being pushed and re-read from offset 0; stable/unstable and sequential/parallel dispatch tables; every builder setting reaches the sorter and both chunk writers; the byte layout Entries::insert writes is the one iter() and the sort key read. Equality of the output with a reference sort-and-merge is not decided. The reallocation keeps the two-ended layout: bounds copied to the front, entry bytes to the back of the new buffer, each region expressed over its own buffer's length.",
+    "explanation": "Static analysis of the sorter's control skeleton on the MIR of the current tree (default, all-features incl. rayon, no-default-features): every insert path stores the caller's entry exactly once; write_chunk sorts once, streams Entries::iter() through the grouping loop (group closed on whole-key inequality: merge once, insert, clear, replace key; value pushed on both arms; trailing group flushed), then pushes the flushed chunk and clears the buffer; every consumer goes through one final write_chunk; the chunk vector is only appended to / drained whole so vector order is age order, which the merger's source-index tie-break (C06 rules re-run here) turns into oldest-value-first; chunks are flushed before being pushed and re-read from offset 0; stable/unstable and sequential/parallel dispatch tables; every builder setting reaches the sorter and both chunk writers; the byte layout Entries::insert writes is the one iter() and the sort key read. Equality of the output with a reference sort-and-merge is not decided. The reallocation keeps the two-ended layout: bounds copied to the front, entry bytes to the back of the new buffer, each region expressed over its own buffer's length. The sorter writes its chunks with this Writer and reads them back through this cursor: the shared file-wellformedness and cursor-traversal rules (rules/shared.py) are re-run as necessary conditions.",
     "assumptions": ["slice sort_by_key / sort_unstable_by_key and rayon par_sort* sort by the given key (stable where documented)", "C06 (merger) rules"],
 }
 
@@ -41,6 +41,9 @@ def run(ck):
         from .c11 import r1_write_all, r2_count_accepted
         ck.guard("C07-R12", r2_count_accepted, ck, F, "C07-R12")
         ck.guard("C07-R12", r1_write_all, ck, F, "C07-R12")
+        from . import shared
+        shared.file_wellformed(ck, F, "C07-R12")
+        shared.cursor_traversal(ck, F, "C07-R13")
     ck.trusted += ["rustc MIR construction", "std / rayon sorting contracts", "BinaryHeap"]
 
 
